@@ -431,3 +431,36 @@ func VerifC11_LateRoots2() {
 		}
 	}
 }
+
+// VerifC11_LateRootErrorsListed: errors reported by a root registered while
+// the DSL executes are returned together with the errors of the roots that
+// were registered up front (execution is one phase: all its errors come back).
+func VerifC11_LateRootErrorsListed() {
+	Reset()
+	vLog = nil
+	firstFails, lateFails := nondetBool("first-fails"), nondetBool("late-fails")
+	le := &vExpr{id: 10}
+	if lateFails {
+		le.onDSL = func() { ReportError("bad late") }
+	}
+	l := &vRoot{name: "l", id: 1}
+	l.sets = func() []ExpressionSet { return []ExpressionSet{{le}} }
+	e0 := &vExpr{id: 0}
+	e0.onDSL = func() {
+		Register(l)
+		if firstFails {
+			ReportError("bad first")
+		}
+	}
+	r0 := &vRoot{name: "r0", id: 0}
+	r0.sets = func() []ExpressionSet { return []ExpressionSet{{e0}} }
+	Register(r0)
+	err := RunDSL()
+	verifAssert("late-errors:error-iff-reported", (err != nil) == (firstFails || lateFails))
+	if err == nil {
+		return
+	}
+	msg := err.Error()
+	verifAssert("late-errors:first-listed", strings.Contains(msg, "bad first") == firstFails)
+	verifAssert("late-errors:late-listed", strings.Contains(msg, "bad late") == lateFails)
+}
